@@ -4,7 +4,9 @@ import (
 	"bytes"
 	"encoding/json"
 	"fmt"
+	"github.com/scrapli/scrapligo/driver/generic"
 	"strings"
+	"sync"
 	"time"
 
 	"github.com/scrapli/scrapligo/channel"
@@ -63,11 +65,11 @@ type faultCase struct {
 
 func genFault(prop string, r *sim.Rng, i int) *faultCase {
 	c := &faultCase{Prop: prop, K: -1, KFrac: r.Intn(1001)}
-	c.Op = []string{"cmd", "cmd", "getprompt", "interactive", "netcmd", "acquire"}[r.Intn(6)]
+	c.Op = []string{"cmd", "cmd", "getprompt", "interactive", "netcmd", "acquire", "callbacks"}[r.Intn(7)]
 	if prop == "C05" {
 		c.Fault = "stall"
 		c.Timeout = r.Pick([]string{"conn", "conn", "perop"})
-		if c.Op == "getprompt" || c.Op == "acquire" || c.Op == "netcmd" {
+		if c.Op == "getprompt" || c.Op == "acquire" || c.Op == "netcmd" || c.Op == "callbacks" {
 			c.Timeout = "conn"
 		}
 	} else {
@@ -201,6 +203,8 @@ func execFault(c *faultCase, fault bool, k int) *faultRun {
 	var specs []string
 	var getCached func() string
 	var getPrompt func() (string, error)
+	var cbMu sync.Mutex
+	var cbTrace [][]byte
 	if network_ {
 		dev := &sim.PrivDevice{Levels: map[string]*sim.PrivLevel{
 			"exec":           {Name: "exec", Prompt: "host(l0)#"},
@@ -247,6 +251,9 @@ func execFault(c *faultCase, fault bool, k int) *faultRun {
 	} else {
 		var dev sim.Device
 		switch c.Op {
+		case "callbacks":
+			dev = &sim.ScriptDevice{Steps: [][]byte{[]byte("Proceed with reload? [y/n] "), []byte("Password: "), []byte("reloading\r\nrouter#"), []byte("\r\nnext output\r\nrouter#")},
+				EchoInput: true, Hidden: map[int]bool{2: true}}
 		case "interactive":
 			dev = &sim.ScriptDevice{Steps: [][]byte{[]byte("Proceed? [y/n] Password: "), []byte("done\r\nrouter#"), []byte("\r\nnext output\r\nrouter#")}, EchoInput: true}
 		default:
@@ -281,6 +288,33 @@ func execFault(c *faultCase, fault bool, k int) *faultRun {
 		case "getprompt":
 			first = func() (string, error) { return d.GetPrompt() }
 			calls = []string{"gp"}
+		case "callbacks":
+			mk := func(idx int, answer string, oo ...util.Option) *generic.Callback {
+				cb, _ := generic.NewCallback(func(dd *generic.Driver, arg string) error {
+					cbMu.Lock()
+					cbTrace = append(cbTrace, []byte(fmt.Sprintf("%d:%s", idx, arg)))
+					cbMu.Unlock()
+					if answer == "" {
+						return nil
+					}
+					return dd.Channel.WriteAndReturn([]byte(answer), false)
+				}, oo...)
+				return cb
+			}
+			cbs := []*generic.Callback{
+				mk(0, "y", opoptions.WithCallbackContains("[y/n]")),
+				mk(1, "s3cret", opoptions.WithCallbackContains("password:")),
+				mk(2, "", opoptions.WithCallbackContains("router#"), opoptions.WithCallbackComplete()),
+			}
+			first = func() (string, error) {
+				r, e := d.SendWithCallbacks("reload", cbs, connTimeout)
+				if e != nil {
+					return "", e
+				}
+				return r.Result, nil
+			}
+			calls = []string{fmt.Sprintf("cb|%s|%s/%s/-/ri/%s;%s/%s/-/ri/%s;%s/%s/-/ric/-", hx([]byte("reload")),
+				hx([]byte("[y/n]")), "", hx([]byte("y")), hx([]byte("password:")), "", hx([]byte("s3cret")), hx([]byte("router#")), "")}
 		case "interactive":
 			evs := []*channel.SendInteractiveEvent{{ChannelInput: "reload", ChannelResponse: rx["password_pattern"]}, {ChannelInput: "yes", ChannelResponse: ""}}
 			first = func() (string, error) {
@@ -395,7 +429,9 @@ func execFault(c *faultCase, fault bool, k int) *faultRun {
 		fr.outs = []string{strings.Join(fr.outs, ","), "sync", hxList(wl), hx([]byte(fr.cached))}
 	} else {
 		fr.line = fmt.Sprintf("chanalt 1000 prompt_pattern %s %s %s %s", hx([]byte("\n")), hx(start), hxStrs(calls), logStr)
-		fr.outs = []string{strings.Join(fr.outs, ","), "sync", hxList(wl), "L"}
+		cbMu.Lock()
+		fr.outs = []string{strings.Join(fr.outs, ","), "sync", hxList(wl), hxList(cbTrace)}
+		cbMu.Unlock()
 	}
 	return fr
 }
